@@ -337,6 +337,9 @@ func c10(r *rep.Run) {
 			vals := make([]interface{}, len(p.Vars))
 			drive.ForBindings(Doms(p.Vars, false), vals, func() bool {
 				nb++
+				if nb%512 == 0 {
+					r.Note(w, p.Src) // progress within one program (many bindings)
+				}
 				for round := 0; round < 3; round++ {
 					env1 := &ref.Env{Vals: map[string]interface{}{}, Custom: mfns}
 					for k, v := range p.Vars {
